@@ -288,3 +288,42 @@ def install(reg):
             return vint(setcard(v.t))
         return None
     reg.add_hook("size_of", size_of)
+
+
+# ---------------------------------------------------------------------- textual round trip (pickling, C16)
+TAeonText = TObj("AeonText")
+to_aeon_fn = z3.Function("to_aeon", TNetObj.sort(), TAeonText.sort())
+from_aeon_fn = z3.Function("from_aeon", TAeonText.sort(), TNetObj.sort())
+cleanup_fn = z3.Function("cleanup_network", TNetObj.sort(), TNetObj.sort())
+_n = z3.Const("n!aeon", TNetObj.sort())
+TRUSTED["aeon.BooleanNetwork.to_aeon / from_aeon"] = (
+    "a network prepared by cleanup_network (no parameters, inferred regulatory graph) is reproduced by "
+    "cleanup_network(from_aeon(to_aeon(n))) up to the observations the library makes of it (variable names and order, update functions): "
+    "modelled as equality of the abstract network objects")
+AX_AEON = [
+    z3.ForAll([_n], z3.Implies(cleanup_fn(_n) == _n, cleanup_fn(from_aeon_fn(to_aeon_fn(_n))) == _n), patterns=[to_aeon_fn(_n)]),
+    z3.ForAll([_n], z3.And(cleanup_fn(cleanup_fn(_n)) == cleanup_fn(_n), bn_net_of(cleanup_fn(_n)) == bn_net_of(_n)), patterns=[cleanup_fn(_n)]),
+]
+
+
+class NetObjModel3(NetObjModel2):
+    def method(self, eng, st, v, meth, args, kw, node, recv_expr=None):
+        if meth == "to_aeon":
+            return Val(TAeonText, to_aeon_fn(v.t))
+        return super().method(eng, st, v, meth, args, kw, node, recv_expr)
+
+
+_install6 = install
+
+
+def install(reg):
+    _install6(reg)
+    reg.models = [(p, (NetObjModel3() if isinstance(m, NetObjModel2) else m)) for p, m in reg.models]
+
+    def from_aeon(eng, st, node):
+        a = eng.ev(node.args[0], st)
+        if a.ty != TAeonText:
+            raise OutOfSubset("BooleanNetwork.from_aeon(<not aeon text>)")
+        return Val(TNetObj, from_aeon_fn(a.t))
+    reg.module_calls[("BooleanNetwork", "from_aeon")] = from_aeon
+    reg.extra_axioms = getattr(reg, "extra_axioms", []) + AX_AEON
